@@ -9,6 +9,7 @@ is the calling thread's.
 import contextlib
 import copy
 import random
+import re
 
 from ginsim import callmodel as cm
 from ginsim import probes, sched, shrink, world
@@ -334,14 +335,18 @@ def check_call(v, op, exp, exc, rec, toks, prefix='C01'):
         (what, type(exc).__name__, probes.scrub(str(exc))[:200], exp['exc']))
     elif exp['exc'] == 'RuntimeError':
       msg = str(exc)
-      want = str(exp['missing'])
-      if want not in msg:
-        v(prefix + '.error_names_missing', [],
-          '%s: error text %r does not list exactly %s in signature order' %
-          (what, msg[:300], want))
-      elif ('`%s`' % op.get('display', op['probe'])) not in msg:
+      want = list(exp['missing'])
+      # format-agnostic: the parameter-like words of the message, after the
+      # configurable's name, are exactly the unfilled names in signature order
+      head, sep, tail = msg.partition(op['probe'])
+      words = re.findall(r'(?<![\w.])(?:p\d+|x\d+|self)(?![\w])', tail)
+      if not sep:
         v(prefix + '.error_names_configurable', [],
           '%s: error text %r does not name the configurable' % (what, msg))
+      elif words != want:
+        v(prefix + '.error_names_missing', [],
+          '%s: error text %r names %r, expected exactly %r in signature order' %
+          (what, msg[:300], words, want))
     return
   if exc is not None:
     v(prefix + '.call_succeeds', [type(exc).__name__],
